@@ -217,7 +217,8 @@ func genCut(c *hx.Ctx) []*scriptScn {
 				open[side] = with(bs.ids, 9)
 				b := newBuilder("muxfault_cut", transport, 256, open[0], open[1])
 				b.s.Cut[side] = n
-				b.s.Note = fmt.Sprintf("base %d, %d bytes, cut at %d, writer side %d, eager=%v", bi, total, n, side, eager)
+				b.s.CutErr[side] = []string{"", "timeout", "", "temporary", "timeout"}[(variant+n)%5]
+				b.s.Note = fmt.Sprintf("base %d, %d bytes, cut at %d (%s), writer side %d, eager=%v", bi, total, n, b.s.CutErr[side], side, eager)
 				if eager {
 					for _, id := range bs.ids {
 						b.readOrBg(1-side, id)
@@ -791,6 +792,7 @@ func driveFault(c *hx.Ctx) error {
 		"muxfault_reopen: on one id (a sibling id untouched): conn.Close, Open again (a new connection object), Close of the OLD handle once or twice more, optionally data over the replacement, then Mux.Close / the peer's Close / a transport failure at either end with a Read pending on the replacement or issued later; " +
 		"an act that depends on an Open that hung or failed is skipped, the hang itself is the observation; " +
 		"muxfault_listener: every sequence of Accept/Close up to length 4 (thorough 7) on the listener wrapper. " +
+		"In three of five cut scenarios the failing trunk.Write returns a net.Error (Timeout or Temporary) and, when it was partial, the trunk takes bytes again afterwards (an expired write deadline, the peer drains again): the Writes that follow on other ids must fail all the same, a partial write is fatal whatever the error's type. " +
 		"A cut fails the outgoing direction of one end after an exact number of bytes (the failing trunk.Write returns the n bytes that still went out); after every fault the script waits until each Mux that has to close itself has closed its trunk, so that later calls do not race with its reader. Every call runs under a 20 s bound (1 s for the rest of a scenario once a call has hung; a hung scenario is run again alone before it is reported); a script ends with Close at both ends, a drain of every connection (Reads until 64 consecutive errors) and one more Write. Non-trivial: a fault was injected and at least one call was made after it. Compared in Coq: every call's result class and payload against the model replayed on the same script (select choices taken from the observation), the recorded trunk bytes, and the property's predicate on the observation."
 	return nil
 }
